@@ -197,6 +197,34 @@ pub fn run(path: &str, out: &mut dyn Write) {
                     }
                 }
             }
+            Some("mapimg") => {
+                // `mapimg <id> <A hex> M <nl> ids <nr> ids <B|err|panic>`: read A back, map, write again
+                if let Some(mi) = t.iter().position(|x| *x == "M") {
+                    let parse = |from: usize| -> Option<(Vec<u16>, usize)> {
+                        let n: usize = t.get(from)?.parse().ok()?;
+                        let v: Vec<u16> = t.get(from + 1..from + 1 + n)?.iter().filter_map(|x| x.parse().ok()).collect();
+                        if v.len() == n { Some((v, from + 1 + n)) } else { None }
+                    };
+                    if let (Some(a), Some((l, next))) = (unhex(t[2]), parse(mi + 1)) {
+                        if let Some((r, _)) = parse(next) {
+                            let res = crate::wire::guarded(move || {
+                                let d = vibrato::Dictionary::read(&a[..]).map_err(|_| ())?;
+                                let m = d.map_connection_ids_from_iter(l.into_iter(), r.into_iter()).map_err(|_| ())?;
+                                let mut b = vec![];
+                                m.write(&mut b).map_err(|_| ())?;
+                                Ok::<Vec<u8>, ()>(b)
+                            });
+                            let (btok, obs) = match res {
+                                None => ("panic".to_string(), "panic"),
+                                Some(Err(())) => ("err".to_string(), "err"),
+                                Some(Ok(b)) => (hex(&b), "ok same"),
+                            };
+                            let head = t[..t.len() - 1].join(" ");
+                            writeln!(out, "{head} {btok} IMPL {obs}{flags}").unwrap();
+                        }
+                    }
+                }
+            }
             Some("train") => {
                 // train <id> GEN <image> <user|none>   /   train <id> REENC <image>
                 if t.len() >= 5 && t[2] == "GEN" {
